@@ -27,17 +27,17 @@ fn go<T: Lab>(op: &str, args: &[Arg]) -> Option<String> {
     let (sh, es) = match args.first() { Some(Arg::A(sh, es)) => (sh, es), _ => return None };
     let a = match mk::<T>(sh, es) { Some(a) => a, None => return Some("bad:input".into()) };
     Some(match (op, &args[1..]) {
-        ("transpose", [ax]) => res_arr(&a.transpose(opt_isizes(ax)?)),
-        ("moveaxis", [Arg::L(s), Arg::L(d)]) => res_arr(&a.moveaxis(isizes(s), isizes(d))),
-        ("rollaxis", [Arg::Z(ax), st]) => res_arr(&a.rollaxis(*ax as isize, opt_isize(st)?)),
-        ("swapaxes", [Arg::Z(x), Arg::Z(y)]) => res_arr(&a.swapaxes(*x as isize, *y as isize)),
-        ("expand_dims", [Arg::L(ax)]) => res_arr(&a.expand_dims(isizes(ax))),
-        ("squeeze", [ax]) => res_arr(&a.squeeze(opt_isizes(ax)?)),
-        ("reshape", [Arg::L(s)]) => res_arr(&a.reshape(&usizes(s))),
-        ("ravel", []) => res_arr(&a.ravel()),
-        ("atleast", [Arg::Z(n)]) => res_arr(&a.atleast(*n as usize)),
-        ("resize", [Arg::L(s)]) => res_arr(&a.resize(&usizes(s))),
-        ("cycle_take", [Arg::Z(n)]) => res_arr(&a.cycle_take(*n as usize)),
+        ("transpose", [ax]) => w2(res_arr(&a.transpose(opt_isizes(ax)?)), res_arr(&okr(&a).transpose(opt_isizes(ax)?))),
+        ("moveaxis", [Arg::L(s), Arg::L(d)]) => w2(res_arr(&a.moveaxis(isizes(s), isizes(d))), res_arr(&okr(&a).moveaxis(isizes(s), isizes(d)))),
+        ("rollaxis", [Arg::Z(ax), st]) => w2(res_arr(&a.rollaxis(*ax as isize, opt_isize(st)?)), res_arr(&okr(&a).rollaxis(*ax as isize, opt_isize(st)?))),
+        ("swapaxes", [Arg::Z(x), Arg::Z(y)]) => w2(res_arr(&a.swapaxes(*x as isize, *y as isize)), res_arr(&okr(&a).swapaxes(*x as isize, *y as isize))),
+        ("expand_dims", [Arg::L(ax)]) => w2(res_arr(&a.expand_dims(isizes(ax))), res_arr(&okr(&a).expand_dims(isizes(ax)))),
+        ("squeeze", [ax]) => w2(res_arr(&a.squeeze(opt_isizes(ax)?)), res_arr(&okr(&a).squeeze(opt_isizes(ax)?))),
+        ("reshape", [Arg::L(s)]) => w2(res_arr(&a.reshape(&usizes(s))), res_arr(&okr(&a).reshape(&usizes(s)))),
+        ("ravel", []) => w2(res_arr(&a.ravel()), res_arr(&okr(&a).ravel())),
+        ("atleast", [Arg::Z(n)]) => w2(res_arr(&a.atleast(*n as usize)), res_arr(&okr(&a).atleast(*n as usize))),
+        ("resize", [Arg::L(s)]) => w2(res_arr(&a.resize(&usizes(s))), res_arr(&okr(&a).resize(&usizes(s)))),
+        ("cycle_take", [Arg::Z(n)]) => w2(res_arr(&a.cycle_take(*n as usize)), res_arr(&okr(&a).cycle_take(*n as usize))),
         _ => return None,
     })
 }
